@@ -14,6 +14,9 @@ func ProfileFor(prop, tier string, r *Rng) *Profile {
 		}
 	}
 	p.W[KRegistry] = 0.3
+	if prop == "C02" || prop == "C04" || prop == "C06" {
+		p.W[KBigBatch] = 0.4
+	}
 	switch prop {
 	case "C03", "C04", "C05", "C15", "C12":
 		p.Scenarios = 0.03
